@@ -273,3 +273,70 @@ Qed.
 Print Assumptions C09_remote_no_stuck_link_down.
 Print Assumptions C09_remote_no_stuck_after_cut.
 Print Assumptions C09_remote_no_stuck_after_stdin_closed.
+
+(* --------------------------------------------------------------------------------------------------
+   Link-UP half of (S3): what is closed.  Proofs/RemoteSessionBlocked.v (one lemma per thread kind: what must hold
+   when it cannot move; C09_remote_stuck_shape assembles them), Proofs/RemoteSessionPot.v (the potential rpot: everything
+   that can still arrive in the boss's receive channel; it never grows, under every fault),
+   Proofs/RemoteSessionSInv.v (10 more structural invariants), Proofs/RemoteSessionLinkUp.v.
+     C09_remote_receiver_never_waits : under resp_ok, in EVERY reachable state (faults or not) the boss's receiving
+        thread can push what it holds - the blocked kind "receiving thread of the boss waits for capacity" never occurs.
+     C09_remote_stuck_shape : a non-final state with the link up and no successor has every one of its six threads
+        blocked in one of the listed ways (boss_blocked / snd_blocked / rcv_blocked / doer_blocked).
+     C09_remote_no_stuck_faultfree_partial : NO premise about capacities or the protocol: a reachable state of a run
+        without fault steps in which the boss waits for the final message (BFinal) or joins its receiving thread
+        (BJoinR) is final or has a successor.
+   STILL MISSING for C09_remote_no_stuck_faultfree (and hence for the full C09_remote_no_stuck): the boss blocked
+     (B1) in a send (application command or Shutdown): needs receiver_never_waits (proved) + the boss-side mirror of FFA
+          for the RECEIVING thread (it ends with Err only after the boss dropped its receiver or the doer ended; it ends Ok
+          only after pushing the final message) - not proved;
+     (B2) in an application-level blocking receive: needs `covered` as a counting invariant over the whole pipeline
+          (answers in flight + answers of commands in flight >= what the remaining protocol still waits for) - not proved;
+     (B3) in the join of its sending thread with the wire boss->doer full: needs (B1)'s mirror facts plus "once the doer's
+          receiving thread ended Ok nothing is left in the boss->doer pipeline" - not proved.
+   Error replies are not fault steps (nfault counts cut / bad frame / kill / stdin only), so every piece above covers
+   them; the runs after a bad frame are not covered. *)
+From RJ Require Proofs.RemoteSessionBlocked Proofs.RemoteSessionPot Proofs.RemoteSessionSInv Proofs.RemoteSessionLinkUp.
+
+Theorem C09_remote_receiver_never_waits : forall c x s,
+  RemoteSession.resp_ok c x -> RemoteSession.reach c x s ->
+  RemoteSession.can_send c (RemoteSession.inc (RemoteSession.be s)) = true.
+Proof. exact RemoteSessionPot.receiver_never_waits. Qed.
+
+Theorem C09_remote_stuck_shape : forall c s,
+  RemoteSession.final s = false -> RemoteSession.at_end s = false -> RemoteSessionBlocked.link_up s ->
+  (forall s', ~ RemoteSession.step c s s') ->
+  RemoteSessionBlocked.boss_blocked c s /\
+  RemoteSessionBlocked.snd_blocked c (RemoteSession.be s) (RemoteSession.b2d s) /\
+  RemoteSessionBlocked.rcv_blocked c (RemoteSession.be s) (RemoteSession.d2b s) /\
+  RemoteSessionBlocked.doer_blocked c s /\
+  RemoteSessionBlocked.snd_blocked c (RemoteSession.de s) (RemoteSession.d2b s) /\
+  RemoteSessionBlocked.rcv_blocked c (RemoteSession.de s) (RemoteSession.b2d s).
+Proof. exact RemoteSessionBlocked.stuck_shape. Qed.
+
+Theorem C09_remote_no_stuck_faultfree_partial : forall c x s, RemoteSession.reach c x s ->
+  RemoteSession.nfault (RemoteSession.ev s) = 0 ->
+  RemoteSession.pc (RemoteSession.bm s) = RemoteSession.BFinal \/ RemoteSession.pc (RemoteSession.bm s) = RemoteSession.BJoinR ->
+  RemoteSession.final s = true \/ exists s', RemoteSession.step c s s'.
+Proof. exact RemoteSessionLinkUp.no_stuck_ff_final_wait. Qed.
+
+(* the premises are met: a fault-free non-final state with the boss in its final wait; a protocol with resp_ok *)
+Example C09_remote_example_final_wait : exists c x s,
+  RemoteSession.reach c x s /\ RemoteSession.pc (RemoteSession.bm s) = RemoteSession.BFinal /\
+  RemoteSession.nfault (RemoteSession.ev s) = 0 /\ RemoteSession.final s = false.
+Proof.
+  exists (RemoteSessionWitness.cfg 1000%N 0), RemoteSessionWitness2.sc_empty, RemoteSessionWitness2.s_wait.
+  exact RemoteSessionWitness2.wait_state.
+Qed.
+
+Example C09_remote_example_resp_ok : exists c x,
+  RemoteSession.resp_ok c x /\ RemoteSession.covered 0 (RemoteSession.sc_ops x) = true /\
+  length (RemoteSession.sc_ops x) = 7.
+Proof.
+  exists (RemoteSessionWitness.cfg 1000%N 0), RemoteSessionWitness2.sc_cov.
+  destruct RemoteSessionWitness2.resp_ok_cov as [A B]. split; [exact A|]. split; [exact B | reflexivity].
+Qed.
+
+Print Assumptions C09_remote_receiver_never_waits.
+Print Assumptions C09_remote_stuck_shape.
+Print Assumptions C09_remote_no_stuck_faultfree_partial.
